@@ -192,6 +192,7 @@ func (s *Solver) discharge(p *prepared, idx int) {
 		if r.answer != "unsat" {
 			o.Result = r.answer
 			o.Src = fmt.Sprintf("%s  [failing conjunct %d/%d]", o.Src, ci+1, len(p.texts))
+			o.FailSMT = smt
 			o.Model = "; ---- failing query ----\n" + p.hdrs[ci] + smt + "\n; ---- solver output (" + r.solver + ") ----\n" + r.output
 			return
 		}
